@@ -175,6 +175,27 @@ def ordered_stmts(fa):
     return out
 
 
+def lexical_conditions(fa, node):
+    """[(test expression, True if node is in the true branch / loop body, False if in the else branch)] of the if / while / conditional
+    expressions that lexically enclose node inside the function, innermost first"""
+    out = []
+    cur = node
+    par = getattr(cur, "_parent", None)
+    while par is not None and par is not fa.node:
+        if isinstance(par, (ast.If, ast.While)):
+            if cur in par.body:
+                out.append((par.test, True))
+            elif cur in par.orelse:
+                out.append((par.test, False))
+        elif isinstance(par, ast.IfExp):
+            if cur is par.body:
+                out.append((par.test, True))
+            elif cur is par.orelse:
+                out.append((par.test, False))
+        cur, par = par, getattr(par, "_parent", None)
+    return out
+
+
 def effect_table(ctx, rule, fa, vocabulary, rows, what_prefix="", count=None):
     """rows = [(statement text or prefix, guard `need`, what)].  Every simple statement of the function whose normalised text starts with the
     row's text (at least one must exist) is reached under `need` (dominance) and under no condition outside the function's own test
@@ -192,6 +213,21 @@ def effect_table(ctx, rule, fa, vocabulary, rows, what_prefix="", count=None):
         key0 = f"{rule}|{q}|{text[:40]}" + (f"#{nth}" if nth is not None else "")
         if not hits:
             ctx.ob(rule, False, fa.site(), f"{what_prefix}{what}", detail=f"no statement `{text}…` in {fa.fi.name}", func=q, key=key0 + "|present")
+            continue
+        if need.startswith("lex:"):
+            # lexical variant for branches that mutate the very cursor their test reads (the path fact is killed by the mutation):
+            # the statement sits in the true-branch of an `if <need>` and every enclosing test belongs to the vocabulary
+            g = need[4:]
+            for x in hits:
+                conds = lexical_conditions(fa, x)
+                dom = any(pol and same_test(t, g) for t, pol in conds)
+                ctx.ob(rule, dom, fa.site(x), f"{what_prefix}{what}", detail="" if dom else f"`{norm_text(x)[:60]}` is not inside the branch `if {g}`", func=q, key=key0 + "|dom")
+                allowed_t = set()
+                for v_ in list(vocabulary) + [g]:
+                    allowed_t |= terms.atoms_of_text(v_)
+                extra = [norm_text(t) for t, _pol in conds if not terms.atoms_of(t) <= allowed_t]
+                ctx.ob(rule, not extra, fa.site(x), f"{what_prefix}{what} — and nothing else decides it", detail="" if not extra else f"additional enclosing condition(s) {extra}", func=q,
+                       key=key0 + "|terms")
             continue
         for x in hits:
             ok, missing, wit = fa.guarded(x, need) if need.strip() else (fa.reachable(x), [], "")
